@@ -23,19 +23,19 @@ def claim(pid, category, technique, text, note):
 claim('C17', 'proof', 'ground obligations: exhaustive (table, name, value) comparison with vendored registries',
       'every (name, value) of every constant table whose name a registry (glibc elf.h, LLVM 14 BinaryFormat, plus a cited supplement) defines is checked: complete enumeration of a finite space, one obligation per name',
       'registries are trusted transcriptions (hashes in registry/*.json); names known to no registry are reported as unchecked; derived tables checked as functions of their sources')
-claim('C14', 'proof', K1 + '; ' + K2,
+claim('C14', 'proof', K1 + '; ' + K2 + '; ' + BD,
       'note walk iter_notes proved against notes_spec by step refinement (offsets, sizes, raw descriptor, termination, exhaustion of the extent) for all inputs; all note/stab structs (Nhdr, abi, Prop incl. closures, Prpsinfo, Nt_File, Stabs) K2-checked over every (class, byte order, machine, OS ABI, file type)',
-      'descriptor decoding per note type relies on struct_parse = Sem(layout) (K2); property-list elements not under K1 contract; StabSection.iter_stabs is under contract; Sem of construct node kinds assumed (DESIGN 2.8)')
-claim('C16', 'proof', K1 + '; ' + K2,
+      'descriptor decoding per note type relies on struct_parse = Sem(layout) (K2); property-list elements and the two container views (NoteSection / NoteSegment.iter_notes, any p_align) are not under K1 contract: covered by the bounded note differential (images describing one extent as section and as segment, GNU and core type tables); StabSection.iter_stabs is under contract; Sem of construct node kinds assumed (DESIGN 2.8)')
+claim('C16', 'proof', K1 + '; ' + K2 + '; ' + BD,
       'ULEB128._parse and SLEB128._parse proved equal to the standard value (sign extension for any length) and length for every byte string (loop invariant, variant, raises-iff-truncated); UBInt24/ULInt24, the initial-length adapter (32/64-bit escape, reserved values), roundup proved; struct_parse is executed from its real body at every call site; every fixed-width primitive factory of ELFStructs/DWARFStructs and the initial-length struct K2-checked in every configuration',
-      'struct.Struct.unpack assumed to be the two\'s-complement reader of standard sizes; construct\'s FormatField/CString/PrefixedArray node semantics assumed (Sem, DESIGN 2.8)')
+      'a bounded differential over encodings of 1..20 groups (minimal and padded) keeps deciding when a LEB128 loop is rewritten in a form the engine rejects; struct.Struct.unpack assumed to be the two\'s-complement reader of standard sizes; construct\'s FormatField/CString/PrefixedArray node semantics assumed (Sem, DESIGN 2.8)')
 
 claim('C01', 'proof', K1 + '; ' + K2,
       'Ehdr/Shdr/Phdr layouts K2-checked over every (class, byte order, machine, OS ABI, file type); table addressing with e_shentsize/e_phentsize, extended-numbering escapes, header fetch, type->class dispatch (all 18 kinds), segment dispatch, enumeration generators proved against their specifications for all inputs',
       'lookups through an already built name map are under contract (index 0 is an index); the construction of the map is not (exercised by the C10 repeated-query fault injection); constructors of Dynamic/Relocation/Attributes sections and the eight linked-section helpers are assumed contracts at the dispatch (checked under their own properties where listed); Sem of construct node kinds assumed')
-claim('C02', 'proof', K1 + '; ' + K2,
+claim('C02', 'proof', K1 + '; ' + K2 + '; ' + BD,
       'chunked C-string reader proved to return the bytes up to the first NUL for any length; string table lookup; Section.__init__ compression header and Section.data (NOBITS / zlib with size check / raw) ; Segment.data; interpreter name; address_offsets soundness; section_in_segment proved equal to the binutils strict rule on every path; Elf_Chdr K2',
-      'zlib.decompressobj assumed (documented contract); address_offsets completeness (every containing segment is yielded) not proved; binutils rule scoped to the four condition groups of the statement')
+      'zlib.decompressobj assumed (documented contract); address_offsets completeness (every containing PT_LOAD segment is yielded, in order) and independence between same-named sections are covered by the bounded contents differential only (overlapping / nested / abutting segments; same-named compressed sections); binutils rule scoped to the four condition groups of the statement')
 claim('C03', 'proof', K1 + '; ' + K2 + '; ' + BD,
       'Elf_Sym (both classes, bit structs), syminfo, hash headers K2; symbol addressing by sh_entsize, names through the linked string table, index section, syminfo; SysV and GNU hash functions proved equal to the standard 32-bit functions for every name; GNU symbol-count recovery proved (walks the highest bucket chain to its end bit), SysV count; linked-section validators',
       'hash lookups: the GNU chain walk (found and fixed a shared-stream defect) and the SysV chain walk are under contract (every index on the chain examined, candidates are the symbols of those indices; no termination claim for cyclic SysV chains); the bloom filter test is an ASSUMED contract, covered with the end-to-end behaviour by the bounded hash differential (tables built from the specification, engineered collisions); get_symbol_by_name map construction not under contract')
@@ -44,28 +44,28 @@ claim('C08', 'proof', K1 + '; ' + K2 + '; ' + GR + '; ' + BD,
       '_do_apply_relocation / find_relocations_for_section / apply_section_relocations are not under K1 contract: covered by a bounded differential (objects written by an independent ELF writer for every supported (machine, type), result compared with the ABI formula); MIPS RELA in-place addend is a recorded known finding')
 claim('C09', 'proof', K1 + '; ' + K2 + '; ' + BD,
       'Elf_Dyn K2 incl. machine/OS specific tag tables; raw tag addressing, walk to DT_NULL (with termination variant), table pointer lookup (first entry bearing the tag) mapped through loadable segments, string tags through the dynamic string table, tag count; GNU/SysV symbol count',
-      '_get_stringtable assumed; the public iter_tags is proved to wrap exactly the raw walk; get_relocation_tables, DynamicSegment.num_symbols fallback path / get_symbol / constructors are not under K1 contract: covered by the bounded differential of section-less images (independent ELF writer: PT_LOAD + PT_DYNAMIC, string/symbol/hash/REL/RELA/JMPREL tables)')
+      '_get_stringtable assumed; the public iter_tags is proved to wrap exactly the raw walk; get_relocation_tables, DynamicSegment.num_symbols fallback path / get_symbol / constructors are not under K1 contract: covered by the bounded differential of section-less images (independent ELF writer: PT_LOAD + PT_DYNAMIC, string/symbol/hash/REL/RELA/JMPREL tables; lookup by name incl. several symbols of one name, on fresh and used objects)')
 claim('C13', 'proof', K1 + '; ' + K2 + '; ' + BD,
       'aranges set parsing (alignment, tuple walk to the (0,0) terminator, appended entries), bisect lookup under disjointness, unit cache representation invariant with RI-preserving interference at yields, offset-exact and containing lookups; headers K2',
       'NameLUT is not under K1 contract (string-keyed dictionary built in a nested loop): covered by the bounded name-table differential (UTF-8 names, several sets); _parse_CU_at_offset is checked (unit header layout K2, DWARFStructs construction modelled); float ceil exact below 2^53; 32-bit DWARF sets; disjoint ranges assumed for the lookup')
-claim('C15', 'proof', K1 + '; ' + K2,
+claim('C15', 'proof', K1 + '; ' + K2 + '; ' + BD,
       'version records K2; entry and auxiliary chains by displacement (recursive offset spec), names via linked string table, requirement names, definition index resolution, versym entries, linked-section validation',
-      'GNUVerNeedSection.get_version (searches every entry and auxiliary) and has_indexes (False only if every vna_other is 0; memoised) are under contract')
-claim('C20', 'proof', K1 + '; ' + K2 + '; ' + GR,
+      'GNUVerNeedSection.get_version (searches every entry and auxiliary) and has_indexes (False only if every vna_other is 0; memoised) are under contract; a bounded differential over generated images (three version sections with padded chains, symbols, both classes and byte orders, queries in shuffled orders on fresh and used objects) covers the public methods end to end and keeps deciding when one is rewritten in a form the engine rejects')
+claim('C20', 'proof', K1 + '; ' + K2 + '; ' + GR + '; ' + BD,
       'prel31; index entry classification and byte-code unpacking (all models, unbounded word loop); byte-code disassembler: every 1- and 2-byte instruction enumerated exhaustively against the EHABI 9.3 table; attribute value kinds per tag (ARM, RISC-V) incl. number lists by loop invariant; subsection and sub-subsection walkers by displacement with interference at yields',
-      'ULEB operand of opcode 0xb2 and instruction sequences are bounded stand-ins (reported separately); _make_attributes walker and mnemonic text have no independent oracle')
+      'ULEB operand of opcode 0xb2 and instruction sequences are bounded stand-ins (reported separately); _make_attributes walker and mnemonic text have no independent oracle; a bounded differential covers attribute sections with file/section/symbol sub-subsections (ARM, RISC-V) and exception index tables whose index entries share table entries, read in shuffled orders')
 claim('C04', 'proof', K1 + '; ' + K2 + '; ' + BD,
-      'K2: unit headers (v2-v5, every unit type), abbreviation declarations incl. implicit_const and the full form table per (format, address size, version) equal the DWARF layouts over the complete configuration space. K1 (all inputs): the parse of one entry (DIE._parse_DIE by step refinement: code, null entries, every attribute adjacent to the previous with name, offset, final form, raw value, indirection length; DW_FORM_indirect chains of any depth) over abstract form parsers; value translation (strings, flags, index forms with the unit\'s entry width and bases); unit header parse; the per-unit entry cache (sorted, duplicate free, exact), lookups by offset (rejects offsets outside the unit), children iteration proved against the structural tree specification (DW_AT_sibling shortcuts in unit-relative and section-relative forms give the same offsets on well-formed input)',
-      'DIE.__init__ enters the cache contracts as an ASSUMED die_at predicate (identified with _parse_DIE\'s contract on paper); abbreviation table lookups assumed (layout K2); the resolved attribute VALUE, _iter_DIE_subtree, get_parent, DWARFInfo.get_DIE_from_refaddr/get_DIE_by_sig8 are covered only by the bounded differential (generated sections: 1-3 units of mixed parameters, every form incl. nested DW_FORM_indirect, trees of depth <= 4); termination of the recursive children walk not proved; Sem of construct node kinds assumed')
+      'K2: unit headers (v2-v5, every unit type), abbreviation declarations incl. implicit_const and the full form table per (format, address size, version) equal the DWARF layouts over the complete configuration space. K1 (all inputs): the parse of one entry (DIE._parse_DIE by step refinement: code, null entries, every attribute adjacent to the previous with name, offset, final form, raw value, indirection length; DW_FORM_indirect chains of any depth) over abstract form parsers; value translation (strings, flags, index forms with the unit\'s entry width and bases); unit header parse; the per-unit entry cache (sorted, duplicate free, exact), lookups by offset (rejects offsets outside the unit), children iteration proved against the structural tree specification (DW_AT_sibling shortcuts in unit-relative and section-relative forms give the same offsets on well-formed input); the same five contracts for version 4 type units (TypeUnit, derived mechanically from the CompileUnit contracts by renaming), type unit header parse and the type unit walk of .debug_types; reference resolution: the dispatch of DIE.get_DIE_from_attribute over the reference forms (unit-relative = unit offset + value within the own unit, section-relative passed unchanged, non-reference forms rejected) and DWARFInfo.get_DIE_from_refaddr (the entry at that offset of the containing unit)',
+      'DIE.__init__ enters the cache contracts as an ASSUMED die_at predicate (identified with _parse_DIE\'s contract on paper); abbreviation table lookups assumed (layout K2); the resolved attribute VALUE, _iter_DIE_subtree, get_parent, the lookup of a type unit by signature (_parse_debug_types, get_TU_by_sig8, get_DIE_by_sig8: ASSUMED at the dispatch) are covered only by the bounded differentials (generated sections: 1-3 units of mixed parameters plus version 4 type units, every form incl. nested DW_FORM_indirect, trees of depth <= 4; reference resolution by every reference form incl. type signatures of v4 and v5 type units); termination of the recursive children walk not proved; Sem of construct node kinds assumed')
 claim('C05', 'proof', K1 + '; ' + K2 + '; ' + BD,
       'K1 (all inputs): step refinement of LineProgram._decode_line_program against the DWARF 6.2.5 state machine: after every iteration each register, the emitted row and the next instruction offset are what the specification prescribes (special, standard incl. unknown standard opcodes skipped by standard_opcode_lengths, extended opcodes, VLIW op_index); K2: line program header v2-v5 incl. entry formats, file entries, form table',
-      'header/extent handling in DWARFInfo._parse_line_program_at_offset and the v5 directory/file tables are covered by the bounded differential only; the fold over the whole program follows from the step lemma by induction on the loop (composition argument in DESIGN 4, not machine checked); one recorded known finding (is_stmt of the end_sequence row)')
+      'header/extent handling in DWARFInfo._parse_line_program_at_offset and the v5 directory/file tables (entry formats varying per unit: inline, .debug_str and .debug_line_str paths, numeric forms, optional fields) are covered by the bounded differential only; the fold over the whole program follows from the step lemma by induction on the loop (composition argument in DESIGN 4, not machine checked); one recorded known finding (is_stmt of the end_sequence row)')
 claim('C06', 'proof', K1 + '; ' + K2 + '; ' + BD,
-      'K2: CIE (v1/3/4) and FDE headers over every configuration; K1 (all inputs): instruction decoding (_parse_instructions by step refinement against the operand-kind table of 6.4.2/7.24: opcode, operand count, operand values by kind, next offset, unknown opcodes rejected, walk up to end_offset), CIE lookup for an FDE (_parse_cie_for_fde: pointer arithmetic for .debug_frame and .eh_frame, position preserved), instruction naming; bounded differential: entry walk, pointer encodings, augmentation, and the decoded table incl. register order against a DWARF 6.4.2 interpreter',
-      '_parse_entry_at is an assumed contract at the K1 call site; _decode_CFI_table (the rule interpreter: a dictionary keyed by register numbers and names) and the entry walk are covered by the bounded differential only (every CFA opcode x configuration)')
-claim('C07', 'proof', K1 + '; ' + K2,
+      'K2: CIE (v1/3/4) and FDE headers over every configuration; K1 (all inputs): instruction decoding (_parse_instructions by step refinement against the operand-kind table of 6.4.2/7.24: opcode, operand count, operand values by kind, next offset, unknown opcodes rejected, walk up to end_offset), CIE lookup for an FDE (_parse_cie_for_fde: pointer arithmetic for .debug_frame and .eh_frame, position preserved), instruction naming; the parse of one entry (_parse_entry_at: cached entries, terminator, format from the first word, CIE/FDE discrimination by the identifier word, header members, link to the designated CIE, LSDA presence, extent of the instructions, entry cache as a representation field with its invariant), the .eh_frame FDE header (_parse_fde_header: initial location and range in the basic encoding the CIE records, absolute pointers without R, pcrel relative to the field), pointer encodings (_parse_lsda_pointer: nine basic encodings x absptr/pcrel), augmentation data (_parse_cie_augmentation for each augmentation string of the quantifier plus unknown letters, armcc and empty strings; _read_augmentation_data); bounded differential: entry walk (any interleaving incl. FDE before its CIE), every augmentation, and the decoded table incl. register order against a DWARF 6.4.2 interpreter',
+      '_decode_CFI_table (the rule interpreter: a dictionary keyed by register numbers and names), the section scan _parse_entries, the position at which the instructions of an entry start and the value of the LSDA pointer inside _parse_entry_at are covered by the bounded differential only (every CFA opcode x configuration); augmentation strings are enumerated, not quantified; two defects were found and fixed (known_findings.json)')
+claim('C07', 'proof', K1 + '; ' + K2 + '; ' + BD,
       'K2: v5 list unit headers, every DW_LLE/DW_RLE entry layout, counted location description, locview pair. K1 (all inputs): pre-v5 range and location list walks return exactly the encoded entries up to the (0,0) terminator (kind, begin/end or base address, expression bytes, offset, length); every v5 entry translator and the translation of a whole v5 list (map rule, table dispatch proved per kind) with indexed addresses resolved through the unit\'s address table (get_addr checked); access by section offset and by index through the offset table (entry width from the unit\'s format); unit blocks of the v5 sections and the raw lists of a block; location view pairs; section pair dispatch by unit version; attribute classification',
-      'iter_range_lists / iter_location_lists (enumeration by scanning the debugging entries) and iter_CUs of the list classes are not under contract; DIE.__init__ assumed for the root entry that carries the base attributes; decoded v5 entries are the K1 abstraction of the K2-checked layout (count/fields as functions of bytes and offset)')
+      'iter_range_lists / iter_location_lists (enumeration by scanning the debugging entries) are not under K1 contract: covered by the bounded enumeration differential (designated lists separated by gaps, trailing gaps, unit blocks without designated lists; found and fixed a defect); the end-to-end list differential covers access by offset/index and the unit blocks; DIE.__init__ assumed for the root entry that carries the base attributes; decoded v5 entries are the K1 abstraction of the K2-checked layout (count/fields as functions of bytes and offset)')
 claim('C10', 'proof', K1 + '; ' + BD,
       'lazily built caches are representation fields with object invariants: only their owner functions touch them (enforced by the verifier), every owner re-establishes the invariant at exit and at every yield, and owners\' results are functions of (section bytes, arguments) whatever the cache holds (unit cache: _cached_CU_at_offset, get_CU_at, get_CU_containing, _parse_CUs_iter with interference at yields; entry cache: get_top_DIE, _get_cached_DIE, get_DIE_from_refaddr, iter_DIE_children); stream positions are havocked at every call and yield in all K1 contracts, so every proved postcondition holds for any position the previous query left',
       'the whole-history statement (any finite sequence of queries) follows from per-operation invariant preservation by induction over the history; that induction is not machine checked. Section-name and symbol-name maps, abbreviation and line-program caches, decoded call-frame tables are covered only by the bounded history differentials (entry queries, call-frame decode orders)')
@@ -73,12 +73,12 @@ claim('C11', 'proof', K2 + '; ' + K1 + '; ' + BD,
       'K2: debuglink (padding lambda proved), debugsup, debugaltlink structs; K1 (all inputs): Section.__init__/Section.data (gABI compression: header, declared-size check, zlib) ; bounded differential: one generated payload stored plainly, SHF_COMPRESSED (levels 1/6/9, partial), in the legacy .zdebug framing and behind a gnu_debuglink with right/wrong checksum, both classes and byte orders: identical units/entries/section contents, presence reporting, rejection of a wrong checksum and of a wrong declared size',
       'get_dwarf_info / _read_dwarf_section / _decompress_dwarf_section / _file_crc32 are NOT under K1 contract (19-section loop, streaming zlib): covered by the bounded differential only; supplementary-file links not exercised; zlib assumed; Sem of construct node kinds assumed')
 claim('C12', 'proof', K1 + '; ' + K2 + '; ' + BD,
-      'dispatch table of the expression parser: for every DW_OP code the registered parser reads exactly the operand kinds DWARF v5 7.7.1 / GNU extensions prescribe (closure analysis of the real table + replay of each parser on concrete operands); the name map is the inverse of the code map',
+      'dispatch table of the expression parser: for every DW_OP code the registered parser reads exactly the operand kinds DWARF v5 7.7.1 / GNU extensions prescribe (closure analysis of the real table + replay of each parser on concrete operands); the name map is the inverse of the code map and every operation has the opcode number the registries assign (LLVM Dwarf.def; the GNU vendor block from a cited hand transcription)',
       'the parse loop (DWARFExprParser.parse_expr: opcode, offset and operand bookkeeping, whole string consumed) is K1-proved for every byte string over ABSTRACT operand parsers (end/args functions of bytes, position, opcode); what each real table entry reads is the K2 conformance obligation per opcode; nested entry-value expressions and the composition of the two are covered by the bounded sample')
 
 claim('C19', 'proof', K1 + '; bounded fault injection (labelled bounded, never counted as proved)',
       'K1 (all byte strings): ELFFile.__init__ either returns -- with the header decoded at offset 0 in the class and byte order e_ident announces and the invariants the other contracts assume -- or raises ELFError (ELFParseError is a subclass): every path of the real constructor, _identify_file, header fetch, extended string-table index and the compressed string-table header is explored; termination with an iteration bound linear in the file size is proved by loop variants for the dynamic tag walk, note walk, version-record chains, GNU/SysV hash symbol counts, RELR expansion and the section/segment/symbol enumerations under contract',
-      'ELFStructs.create_basic_structs/create_advanced_structs are assumed not to raise (K2 runs them in every configuration); memory bounds are not expressible as contracts and are covered only indirectly (iteration bounds); the enumeration battery as a whole is exercised by the bounded fault injection (truncations, header byte substitutions, random corruptions of 7 seed files, 5 s limit per case); two constructor defects were found and fixed (known_findings.json)')
+      'ELFStructs.create_basic_structs/create_advanced_structs are assumed not to raise (K2 runs them in every configuration); memory bounds are not expressible as contracts and are covered only indirectly (iteration bounds); the enumeration battery as a whole is exercised by the bounded fault injection (truncations, header byte substitutions, random corruptions of 7 seed files, 30 s CPU-time limit per case); two constructor defects were found and fixed (known_findings.json)')
 
 NOT_YET = 'not yet built in this round (DESIGN.md section 9 gives the order of work)'
 NA = {
